@@ -28,7 +28,10 @@ def all_cases(ctx):
     sb = SPLIT_BITS[ctx.tier]
     # bit-reversed order: the low-order bits (first decisions) decide the size of a sub-tree; spread them over the shards
     ks = [int(format(k, f"0{sb}b")[::-1], 2) for k in range(1 << sb)]
-    return [(("remove_unloaded", N, inputs, k), (N, inputs, sb, k)) for k in ks for inputs in (False, True)]
+    cs = [(("remove_unloaded", N, inputs, k), (N, inputs, sb, k)) for k in ks for inputs in (False, True)]
+    # a circuit with a registered blackbox instance `bb` AND an ordinary node that is also called `bb` (legal: only pin names are checked)
+    cs += [(("remove_unloaded", "bbname", False, k), ("bbname", False, 4, k)) for k in range(16)]
+    return cs
 
 
 def run(ctx):
@@ -36,20 +39,30 @@ def run(ctx):
 
     ctx.functions(cg.Circuit.remove_unloaded, cg.Circuit.remove, cg.Circuit.fanin, cg.Circuit.fanout, cg.Circuit.is_output, cg.Circuit.type)
     for cid, (N, inputs, sb, k) in ctx.cases(all_cases(ctx)):
-        U = [f"n{i}" for i in range(N)]
+        registry = {}
+        if N == "bbname":
+            U = ["bb.o", "a", "bb", "n", "bb.i"]
+            registry = {"bb": (["i"], ["o"])}
+        else:
+            U = [f"n{i}" for i in range(N)]
         vars_ = sg.make_vars(U, self_loops=False)
         P, T, O, E = vars_
+        OM = {n: z3.Bool(f"OM!{n}") for n in U}  # node without an `output` attribute (is_output() treats it as not an output)
         types = [t for t in sg.TYPES if inputs is False or t not in ("bb_input", "bb_output")]
         pre = sg.base_pre(vars_, types=types, dag_order=U)
-        A = e2.acc_pre(vars_)
+        A = e2.acc_pre(vars_, OM)
         pre.append(specs.legal_wiring(U, A.present, A.typ, A.edge))
+        if registry:
+            pre.append(specs.pins_ok(registry, A.present, A.typ))
+            for n in ("a", "bb", "n"):
+                pre.append(z3.Not(specs.is_in(T[n], [TS["bb_input"], TS["bb_output"]])))
 
         def op(c, inputs=inputs):
             r1 = c.remove_unloaded(inputs=inputs)
             r2 = c.remove_unloaded(inputs=inputs)
             return {"first": list(r1), "second": list(r2)}
 
-        def posts(pre_, post, out, names, c, inputs=inputs, U=U):
+        def posts(pre_, post, out, names, c, inputs=inputs, U=U, registry=registry):
             res = []
             if out.kind != "ok":
                 return [("returns", z3.BoolVal(False), "remove_unloaded:raises", f"remove_unloaded raised {out.exc}: {out.ret}")]
@@ -70,9 +83,10 @@ def run(ctx):
             res.append(("no-new-nodes", z3.And([z3.Not(post.present(n)) for n in extra]) if extra else z3.BoolVal(True), "remove_unloaded:new-node", "a node was created"))
             res.append(("returned-list", z3.And([z3.BoolVal(v in r1) == removed[v] for v in U] + [z3.BoolVal(len(set(r1)) == len(r1) and set(r1) <= set(U))]), "remove_unloaded:returned-list", f"returned list {r1} is not the set of deleted nodes"))
             res.append(("idempotent", z3.BoolVal(r2 == []), "remove_unloaded:not-idempotent", f"a second call removed {r2}"))
+            res.append(("registry-unchanged", z3.BoolVal(sorted(c.blackboxes) == sorted(registry)), "remove_unloaded:registry-changed", f"the blackbox registry changed to {sorted(c.blackboxes)}"))
             return res
 
-        st = e2.run(ctx, f"remove_unloaded(inputs={inputs})", U, vars_, pre, {}, op, posts, split=(sb, k), detail={"case": cid})
+        st = e2.run(ctx, f"remove_unloaded(inputs={inputs})", U, vars_, pre, registry, op, posts, split=(sb, k), detail={"case": cid}, OM=OM)
         ctx.sample({"case": cid, "universe": U, "paths": st["paths"], "pre": "legal acyclic circuit, all presence/type/output/edge bits symbolic"})
 
 
